@@ -87,6 +87,8 @@ module Pos :
 
   val mul : positive -> positive -> positive
 
+  val iter : ('a1 -> 'a1) -> 'a1 -> positive -> 'a1
+
   val compare_cont : comparison -> positive -> positive -> comparison
 
   val compare : positive -> positive -> comparison
@@ -137,6 +139,8 @@ val list_eq_dec : ('a1 -> 'a1 -> bool) -> 'a1 list -> 'a1 list -> bool
 
 val map : ('a1 -> 'a2) -> 'a1 list -> 'a2 list
 
+val flat_map : ('a1 -> 'a2 list) -> 'a1 list -> 'a2 list
+
 val fold_left : ('a1 -> 'a2 -> 'a1) -> 'a2 list -> 'a1 -> 'a1
 
 val existsb : ('a1 -> bool) -> 'a1 list -> bool
@@ -164,6 +168,10 @@ module Z :
   val sub : z -> z -> z
 
   val mul : z -> z -> z
+
+  val pow_pos : z -> positive -> z
+
+  val pow : z -> z -> z
 
   val compare : z -> z -> comparison
 
@@ -308,6 +316,7 @@ type sexpr =
 | SVar of nat * z
 | SInt of z
 | SDec of z * nat
+| SDec8 of z * nat
 | SNeg of sexpr
 | SPar of sexpr
 | SBin of binop * sexpr * sexpr
@@ -321,6 +330,7 @@ val s_regroup : sexpr -> sexpr
 type tok =
 | TInt of z
 | TDecT of z * nat
+| TDec8 of z * nat
 | TId of str
 | TPlus
 | TMinus
@@ -335,6 +345,12 @@ type tok =
 val digit_val : char -> z
 
 val digits_val : str -> z
+
+val lex_suffix : str -> (z * bool) * str
+
+val dec_norm : z -> nat -> z -> z * nat
+
+val dec_tok : z -> nat -> z -> bool -> tok
 
 val lex : nat -> str -> tok list option
 
@@ -376,13 +392,17 @@ val chunks_of : str -> str list
 
 val fill : nat -> nat -> str list -> str list -> (str list * nat) * str list
 
-val rfind_hyphen : str -> nat -> nat -> nat option -> nat option
-
-val long_end : str -> nat -> nat
-
 val wrap_round : nat -> bool -> str list -> str list * str list
 
 val wrap_chunks : nat -> nat -> bool -> str list -> str list list
+
+val wrap_words : nat -> str -> str list
+
+val is_cut_char : char -> bool
+
+val rfind_cut : str -> nat -> nat -> nat option -> nat option
+
+val split_long : nat -> nat -> str -> str list
 
 val wrap : nat -> str -> str list
 
